@@ -376,3 +376,46 @@ func GenPrecTable(outDir string) error {
 	common.WriteFile(filepath.Join(outDir, "PrecTable.v"), src)
 	return nil
 }
+
+// templateSensitive reports whether rendering the template can depend on precedence at all: its root is an operator
+// or a bare placeholder, or a placeholder stands in an operand position (generator filter for the quick tier; the
+// judgement is the oracle's and the Coq table's).
+func templateSensitive(tpl string) bool {
+	fset := token.NewFileSet()
+	n, isStmt, err := parseCode(fset, mangle(tpl))
+	if err != nil || isStmt {
+		return false
+	}
+	switch r := n.(type) {
+	case *ast.BinaryExpr, *ast.UnaryExpr, *ast.StarExpr:
+		return true
+	case *ast.Ident:
+		if _, ok := holeName(r); ok {
+			return true
+		}
+	}
+	sens := false
+	isHole := func(e ast.Expr) bool { _, ok := holeName(e); return ok }
+	ast.Inspect(n, func(x ast.Node) bool {
+		switch y := x.(type) {
+		case *ast.SelectorExpr:
+			sens = sens || isHole(y.X)
+		case *ast.CallExpr:
+			sens = sens || isHole(y.Fun)
+		case *ast.IndexExpr:
+			sens = sens || isHole(y.X)
+		case *ast.SliceExpr:
+			sens = sens || isHole(y.X)
+		case *ast.TypeAssertExpr:
+			sens = sens || isHole(y.X)
+		case *ast.UnaryExpr:
+			sens = sens || isHole(y.X)
+		case *ast.StarExpr:
+			sens = sens || isHole(y.X)
+		case *ast.BinaryExpr:
+			sens = sens || isHole(y.X) || isHole(y.Y)
+		}
+		return !sens
+	})
+	return sens
+}
